@@ -170,9 +170,24 @@ fn adaptive(b: u64, variant: &str, seed: u64) -> Value {
             None
         }));
     }
+    // "busy": the application starts lookups of its own the moment the node is created, and one bootstrap address is dead -
+    // the request to it expires for the bootstrap lookup and for the application's lookups in the same iteration of the run
+    // loop, so several lookups that all carry the address votes finish TOGETHER
+    let busy = variant.contains("busy");
+    if busy {
+        o.bootstrap.push(format!("{}:6881", std::net::Ipv4Addr::new(10, 251, 0, 1)));
+    }
     let a = net.sim.add_node(o);
     let aaddr = net.sim.nodes[a].addr;
     let t0 = net.sim.now_ns();
+    let mut busy_calls = vec![];
+    if busy {
+        let mut rng = Rng::new(seed ^ 0xB5);
+        for k in 0..(1 + b % 3) {
+            busy_calls.push(net.sim.call_get(a, if k % 2 == 0 { GetKind::Immutable } else { GetKind::FindNode }, rng.id(), "busy"));
+        }
+        net.sim.poke(a);
+    }
     let mut switch_minute: i64 = -1;
     let mut unfirewalled_minute: i64 = -1;
     let mut samples = vec![];
@@ -324,7 +339,7 @@ pub fn run(args: &Args) -> i32 {
         out.line(&ro_put_reply(b, v, seed ^ 0x77));
         b += 1;
     }
-    let variants: Vec<&str> = if thorough { ["reachable", "nat", "reachable_public_ip", "nat_public_ip"].iter().cycle().take(32).cloned().collect() } else { vec!["reachable", "nat", "reachable_public_ip", "nat_public_ip"] };
+    let variants: Vec<&str> = if thorough { ["reachable", "nat", "reachable_public_ip", "nat_public_ip", "reachable_busy", "reachable_busy_public_ip", "nat_busy"].iter().cycle().take(56).cloned().collect() } else { vec!["reachable", "nat", "reachable_public_ip", "nat_public_ip", "reachable_busy", "reachable_busy", "reachable_busy_public_ip", "nat_busy"] };
     for (i, v) in variants.iter().enumerate() {
         out.line(&adaptive(b, v, seed ^ (i as u64 * 101)));
         b += 1;
